@@ -24,7 +24,25 @@ NOTES = {
              'the four output options x front-end x inputs',
     'C19_1': 'C19 made independent of oracle equality (was blind whenever C01 failed)',
     'C19_2': 'fresh / sparsely built messages; `< > < >` on one object',
-    'C17_3': 'caught by C15 as well (dependency scan)',
+    'C17_3': 'an ordering matter (dependency scan of parenthesised expressions): C15 reports it, the layouts C17 compares stay equal',
+    'C10_5': 'held handles: the array / sub-message is fetched, the message is read again, then the operation runs on the handle',
+    'C10_6': 'slice assignment and deletion with negative bounds',
+    'C10_7': 'extend with two references to one element that owns nested objects (C11 reported it already)',
+    'C18_6': 'structs whose plain members carry names that are sizer names in an earlier struct of the same file; '
+             'C++ artefacts carry the whole generated file, replay falls back to it',
+    'C18_7': 'bytes values with format directives (%, {, })',
+    'C13_5': 'typedef-of-union members and arms among the valid bases; unchanged bases are judged as inputs',
+    'C13_7': 'isar sizes / constants / enum values and static patches whose expressions name typedefs, builtin types, '
+             'structs, enums, themselves',
+    'C06_5': 'unions whose largest arm is a padded struct with a narrow optional, in the fault universe',
+    'C06_6': 'hand-written descriptors (sizer shift, structs without members) with a layout-free fault menu and the '
+             'runtime element bound as an oracle (found F40 on the way)',
+    'C04_6': 'a Python runtime matter: C01 / C02 report it since the universe has structs with two dynamic parts '
+             'followed by blocks of different alignment (dyn A, x, dyn B, y)',
+    'C04_7': 'the raw header is C08\'s observation point (C04 compares model, Python statics and encoded_byte_size)',
+    'C08_6': 'needs an included file: C16 compares the model nodes of the multi-file build with the single-file build',
+    'C12_5': 'every rule breaker also as second input of a run whose first file uses the same names harmlessly',
+    'C12_7': 'bisection of failing batches capped (the run took hours when nearly every state failed to compile)',
 }
 
 
@@ -58,7 +76,7 @@ def main():
                 status += '; silent: ' + ', '.join(missed)
         rows.append('| %s | %s | %s | %s |' % (sid, first_sentence(meta['what_and_needs']).replace('|', '/'), status,
                                               NOTES.get(sid, '-')))
-        if det and own not in caught and sid not in ('C04_4',):
+        if det and own not in caught and sid not in ('C04_4', 'C04_6', 'C04_7', 'C08_6', 'C17_3'):
             print('NOTE: %s not caught by its own check %s' % (sid, own))
     table = ('| seed | change | caught by (quick tier; violation class keys) | needed strengthening |\n|---|---|---|---|\n'
              + '\n'.join(rows) + '\n')
